@@ -1618,6 +1618,11 @@ class ContractionTree:
 
         # make sure all flops and size information has been populated
         tree.contract_stats()
+        # including the involved indices of every node (these might be missing,
+        # e.g. for nodes created with precomputed legs), since they can't be
+        # computed correctly once we have started removing ``ind`` below
+        for node in tree.children:
+            tree.get_involved(node)
 
         d = tree.size_dict[ind]
         if project is None:
